@@ -74,6 +74,9 @@ THEOREMS = [
     "Verif.C07.good_frameItem",
     "Verif.C07.good_crop",
     "Verif.C07.good_preserved",
+    "Verif.C07.kymo_times_refine",
+    "Verif.C07.flat_tether_is_identity",
+    "Verif.C07.visible_frames_resolve",
 ]
 RULE = (
     "corpus (F2 inputs) + exhaustive small scope on real TIFF stacks of n<=6 frames of 4x5 pixels: every slice with "
